@@ -26,10 +26,11 @@ import (
 type c17Reader struct {
 	data []byte
 	off  int64
-	mode int // 0 full, 1 one byte at a time, 2 seven bytes, 3 n>0 together with io.EOF
+	mode int // 0 full, 1 one byte at a time, 2 seven bytes, 3 n>0 together with io.EOF, 4 seven bytes with an empty read before each
+	tick bool
 }
 
-var c17ReaderModes = []string{"full reads", "1-byte reads", "7-byte reads", "n>0 together with io.EOF"}
+var c17ReaderModes = []string{"full reads", "1-byte reads", "7-byte reads", "n>0 together with io.EOF", "7-byte reads, each after an empty read (0, nil)"}
 
 func (r *c17Reader) Read(p []byte) (int, error) {
 	if len(p) == 0 {
@@ -43,6 +44,12 @@ func (r *c17Reader) Read(p []byte) (int, error) {
 	case 1:
 		n = 1
 	case 2:
+		n = min(n, 7)
+	case 4:
+		// "nothing happened, try again" is a legal answer of an io.Reader
+		if r.tick = !r.tick; r.tick {
+			return 0, nil
+		}
 		n = min(n, 7)
 	}
 	n = copy(p[:n], r.data[r.off:])
@@ -358,6 +365,11 @@ func c17Body(L int, mode int, thorough bool) func(c *explore.Ctx) {
 							c.Fail("C17.partial", sig, "Read(buf[%d]) at %d returned n=%d bytes that are not the input's (available %d); history %v", op.arg, model, n, avail, hist)
 						} else if avail < 0 && n != 0 {
 							c.Fail("C17.partial", sig, "Read(buf[%d]) beyond the end returned n=%d; history %v", op.arg, n, hist)
+						} else if n > 0 {
+							// the bytes the call reports as read are consumed: the position is just past them
+							if got := p.Pos(); got != model+int64(n) {
+								c.Fail("C17.pos", sig, "Read(buf[%d]) at %d delivered %d bytes together with %v, but Pos()=%d, want %d; history %v", op.arg, model, n, err, got, model+int64(n), hist)
+							}
 						}
 					}
 					failed = true
